@@ -81,3 +81,11 @@ package ice
 //@   site call addrPortEqual#1 assert compares-the-candidates-address-with-the-source-in-canonical-form: arg1 == addr
 //@   site call addrPort#1 assert of-the-candidate-under-inspection: recv == c
 //@   ensures only-a-known-remote-of-that-network-type: result != nil ==> exists i int :: 0 <= i && i < len(a.remoteCandidates[networkType]) && a.remoteCandidates[networkType][i] == result
+
+// The credentials that authenticate inbound messages, and the list of outstanding
+// transactions, are written only by these functions (so a new writer is reported).
+//@ enumerate C02 stores ice.Agent.remoteUfrag in (*Agent).startConnectivityChecks, (*Agent).SetRemoteCredentials, (*Agent).Restart
+//@ enumerate C02 stores ice.Agent.remotePwd in (*Agent).startConnectivityChecks, (*Agent).SetRemoteCredentials, (*Agent).Restart
+//@ enumerate C02 stores ice.Agent.localUfrag in newAgentFromConfig, (*Agent).Restart, WithLocalCredentials
+//@ enumerate C02 stores ice.Agent.localPwd in newAgentFromConfig, (*Agent).Restart, WithLocalCredentials
+//@ enumerate C02 stores ice.Agent.pendingBindingRequests in createAgentBase, (*Agent).updateConnectionState, (*Agent).sendBindingRequest, (*Agent).invalidatePendingBindingRequests, (*Agent).handleInboundBindingSuccess, (*Agent).Restart
